@@ -8,7 +8,7 @@
     own list in the making uses; see C04_create_check_from), [served_ok] for pulls (honest, self-consistent registry),
     nothing for blob uploads, copies, deletes and start-up prunes.  [size_of] (content -> size) is arbitrary. *)
 From Coq Require Import List NArith Bool Permutation.
-From V Require Import Common.Bytes Store.Fs Store.Ops Store.ProofsAlist Store.ProofsNames Store.ProofsInv Store.ProofsOps Store.ProofsTop Store.ProofsMore Store.ProofsFix Store.ProofsRedo Store.ProofsRedo2 Store.ProofsShow Store.Corr.
+From V Require Import Common.Bytes Store.Fs Store.Ops Store.ProofsAlist Store.ProofsNames Store.ProofsInv Store.ProofsOps Store.ProofsTop Store.ProofsMore Store.ProofsFix Store.ProofsRedo Store.ProofsRedo2 Store.ProofsShow Store.Corr Store.Pull2.
 Import ListNotations.
 Open Scope N_scope.
 
@@ -298,4 +298,40 @@ Print Assumptions C04_listed_showable_partial.
 Example C04_showable_partial_nonvacuous :
   ops_have_model ex_ops = true /\ ops_wf (fun mt c => negb (c =? 99)) ex_ops = true /\
   ops_wf (fun mt c => negb ((mt =? MT_TEMPLATE) && (c =? 4))) ex_ops = false.
+Proof. vm_compute. repeat split. Qed.
+
+
+(** ** Models listed by a pull through the new code path (Store/Pull2.v), with a layer of length 0
+
+    blob.DiskCache.Get reports an empty file as absent, so an empty layer is never "cached"; Chunked accepts an empty
+    file under the blob's name as the layer, otherwise the (empty) scratch file is committed: after the pull the blob
+    sha256-e3b0c442... exists, and the listed model is complete.  ([C12_pull2_crash_sound] and its companions are
+    stated for manifests without empty layers — [guard2]; for this class the model is tied to the code by the
+    differential run, and the computation below shows what it predicts.) *)
+Definition e0_sz (c : N) : N := match c with 9 => 0 | _ => c + 10 end.
+Definition e0_man := MkManifest (MkLayer MT_CONFIG (MkDigest true 2) 12)
+                                [MkLayer MT_SYSTEM (MkDigest true 9) 0; MkLayer MT_MODEL (MkDigest true 1) 11; MkLayer MT_LICENSE (MkDigest true 9) 0].
+Definition e0_sv := MkServed2 e0_man 3 [(1, [MkChunk 4 true; MkChunk 5 true]); (9, [MkChunk 7 true]); (2, [MkChunk 6 true])].
+Definition e0_n := MkName [104] [110] [109] [116].
+
+Example C04_pull2_empty_layer :
+  let f := exec2 e0_sz 9 (MkSt2 empty_store []) e0_n e0_sv in
+  snd (pull2 e0_sz 9 (MkSt2 empty_store []) e0_n e0_sv) = ROk /\
+  mget e0_n (base f) = Some (Readable e0_man) /\ bget 9 (base f) = Some 9 /\ man_okb e0_sz (base f) e0_man = true /\
+  (* the blob is there already (an earlier pull, an upload): nothing is committed, the model is complete all the same *)
+  let g := exec2 e0_sz 9 (MkSt2 (MkStore [] [(9, 9)] []) []) e0_n e0_sv in
+  man_okb e0_sz (base g) e0_man = true /\ existsb (fun e => match e with XCommit 9 => true | _ => false end)
+                                                  (effects2 e0_sz 9 (MkSt2 (MkStore [] [(9, 9)] []) []) e0_n e0_sv) = false.
+Proof. vm_compute. repeat split. Qed.
+
+(** the variant whose "cached?" test compares sizes without looking at Get's error (the zero Entry has Size 0) takes
+    every empty layer for cached: nothing is committed, the manifest is linked, the listed model lacks a blob *)
+Definition do_layer_sizeonly (size_of : N -> N) (emp : N) (sv : served2) (r : run2) (l : layer) : run2 * bool :=
+  let sz := match bget (dhex (ldg l)) (base (rs2 r)) with Some c => if size_of c =? 0 then 0 else size_of c | None => 0 end in
+  if sz =? lsz l then (r, true) else do_layer size_of emp sv r l.
+
+Example C04_pull2_empty_layer_sizeonly_refuted :
+  let r := fold_left (fun r l => fst (do_layer_sizeonly e0_sz 9 e0_sv r l)) (all_layers e0_man) (init2 (MkSt2 empty_store [])) in
+  let r' := link (put_blob e0_sz 9 r 3) e0_n e0_man in
+  mget e0_n (base (rs2 r')) = Some (Readable e0_man) /\ bget 9 (base (rs2 r')) = None /\ man_okb e0_sz (base (rs2 r')) e0_man = false.
 Proof. vm_compute. repeat split. Qed.
